@@ -543,6 +543,9 @@ class RealPayloadDecoder(AbstractSimplePayloadDecoder):
                         'Unknown NR (tag %s)' % fo
                     )
 
+                if value != value:
+                    raise ValueError('not a number')
+
             except ValueError:
                 raise error.SubstrateUnderrunError(
                     'Bad character Real syntax'
